@@ -31,7 +31,7 @@ def run(ctx):
     runs.append(("stmt", ps))
     _, ps, _ = vm_util.generate(ctx, "MC_PolicyLang_fx.cfg")
     runs.append(("fx", ps))
-    _, ps, _ = vm_util.generate(ctx, "MC_PolicyLang_sim.cfg", simulate=2000 if ctx.thorough else 150, depth=400)
+    _, ps, _ = vm_util.generate(ctx, "MC_PolicyLang_sim.cfg", simulate=5000 if ctx.thorough else 150, depth=400)
     runs.append(("sim", ps))
     allres = []
     docs = 0
